@@ -30,18 +30,9 @@ pub fn avoid_direct_ts_restart(_cfg: &crate::fscn::FileCfg) -> bool {
 /// TimestampsCustomFormat whose rendering does not sort chronologically (day or month first)
 /// and a cleanup strategy, it keeps/removes the wrong files. Failures of such cases get this
 /// signature (and nothing else does).
-pub fn unsortable_format_with_cleanup(cfg: &crate::fscn::FileCfg) -> bool {
-    match &cfg.rot {
-        Some(r) if r.cln != crate::fscn::Cln::Never => match &r.nam {
-            crate::fscn::Nam::Custom { fmt, .. } => {
-                let y = fmt.find("%Y");
-                let d = fmt.find("%d");
-                let m = fmt.find("%m");
-                !(y < m && m < d)
-            }
-            _ => false,
-        },
-        _ => false,
-    }
+pub fn unsortable_format_with_cleanup(_cfg: &crate::fscn::FileCfg) -> bool {
+    // formerly finding KF-C07-1 (cleanup ordered files by name; formats like "%d-%m-%Y" do not
+    // sort chronologically); repaired in /repo, so nothing is attributed to it any more
+    false
 }
 pub const SIG_UNSORTABLE: &str = "cleanup-with-unsortable-timestamp-format";
